@@ -82,7 +82,7 @@ class IO(Formatter):
         """
         Writes a line to the standard output without formatting.
         """
-        self._output.write_raw(string, flags=flags)
+        self._output.write_line_raw(string, flags=flags)
 
     def error(self, string, flags=None):  # type: (str, Optional[int]) -> None
         """
@@ -110,7 +110,7 @@ class IO(Formatter):
         """
         Writes a line to the error output without formatting.
         """
-        self._error_output.write_raw(string, flags=flags)
+        self._error_output.write_line_raw(string, flags=flags)
 
     def flush(self):  # type: () -> None
         """
